@@ -470,12 +470,30 @@ fn verdict_cases(cw: &mut CaseWriter, seed: u64, n: usize) {
                 i += 1;
             }
         }
-        // systematic: every block of the project loses its first attribute line, and its last one
+        // systematic: every block of the project loses its first attribute line, and its last one; and for each block type one block
+        // loses each of its attribute lines in turn
+        let mut targets: Vec<(&str, usize, String)> = vec![];
         for sp in &spans {
-            for (what, li) in [("first-attribute-deleted", sp.0 + 1), ("last-attribute-deleted", sp.1.saturating_sub(1))] {
+            targets.push(("first-attribute-deleted", sp.0 + 1, sp.2.clone()));
+            targets.push(("last-attribute-deleted", sp.1.saturating_sub(1), sp.2.clone()));
+        }
+        for ty in &types {
+            let of_type: Vec<&(usize, usize, String)> = spans.iter().filter(|sp| &sp.2 == ty).collect();
+            let sp = rng.pick(&of_type);
+            for li in sp.0 + 2..sp.1.saturating_sub(1) {
+                targets.push(("attribute-deleted", li, sp.2.clone()));
+            }
+        }
+        for (what, li, ty) in targets {
+            let sp = match spans.iter().find(|sp| sp.0 < li && li < sp.1) {
+                Some(sp) => sp,
+                None => continue,
+            };
+            {
                 if li <= sp.0 || li >= sp.1 {
                     continue;
                 }
+                let sp = (sp.0, sp.1, ty.clone());
                 if let Some(t2) = damage(&lines, li, "delete", text.len()) {
                     let r = std::panic::catch_unwind(std::panic::AssertUnwindSafe(|| process(&ctx, "gen", &t2)));
                     let v = match r {
@@ -686,7 +704,7 @@ pub fn run(args: &Args) -> i32 {
             "impl": {"class": class, "site": it.next(), "msg": it.next(), "count": n, "first_example": ex}}));
     }
     edge_cases(&mut cw, args.seed, if thorough { 4000 } else { 600 });
-    verdict_cases(&mut cw, args.seed, if thorough { 12000 } else { 2400 });
+    verdict_cases(&mut cw, args.seed, if thorough { 20000 } else { 4000 });
     cw.write(json!({"op": "noop", "label": "summary", "kind": "summary",
         "impl": {"files": fs.len(), "lines": counts.iter().sum::<usize>(), "stride": stride, "outcomes": totals, "by_edit_and_file_kind": per_kind,
                  "exhaustive": stride == 1}}));
